@@ -60,7 +60,8 @@ class Universe:
         self.gdim = gdim
         self.itype = itype
         self.complex_mode = complex_mode
-        self.mesh = E.mesh_for(cell, gdim, coord_degree)  # coord_degree > 1: non-affine cells (structural checks only)
+        self.mesh = E.mesh_for(cell, gdim, coord_degree)  # coord_degree > 1: non-affine cells (vf.world.CurvedWorld or structural checks)
+        self.curved = coord_degree > 1
         cat = E.catalogue(cell, gdim)
         if only is not None:
             cat = {k: v for k, v in cat.items() if k in only}
@@ -257,7 +258,9 @@ class Gen:
         if U.is_facet and U.tdim > 1:
             opts.append(FacetArea)
         if getattr(self, "geo_scalar_classes", None):
-            opts = list(self.geo_scalar_classes)  # e.g. non-affine cells: only what the curved world models
+            opts = list(self.geo_scalar_classes)
+        elif getattr(U, "curved", False):
+            opts = [JacobianDeterminant]  # non-affine cells: only what the curved world models
         cls = rng.choice(opts)
         self.note("leaf:" + cls.__name__)
         q = cls(U.mesh)
